@@ -5,6 +5,7 @@ CONSTANTS
   KnowsCookie = TRUE
   CheckReplies = {"Ok", "OkSimultaneous", "NotOk", "Alive"}
   Acc = FALSE
+  Reflection = FALSE
   CtlKinds = {"Spawn", "PgJoin", "PgLeave", "Terminate", "Ready", "Ping", "Enum"}
   PidClasses = {"adv", "unadv", "nonrem", "none", "r1"}
 INVARIANTS
